@@ -30,6 +30,10 @@ import types
 from datetime import datetime
 from pathlib import Path
 
+class _CaseHang(BaseException):
+    pass
+
+
 _READY = False
 _G = {}
 
@@ -38,6 +42,9 @@ def _init_worker(repo_src: str):
     global _READY
     if _READY:
         return
+    if os.environ.get("C15_DEBUG_STACKS"):
+        import faulthandler
+        faulthandler.register(signal.SIGUSR1, file=open(f"/var/tmp/c15-worker-{os.getpid()}.stack", "w"), all_threads=True)
     if repo_src not in sys.path:
         sys.path.insert(0, repo_src)
     import gallia.command  # noqa  (before gallia.plugins.plugin: circular import otherwise)
@@ -347,6 +354,8 @@ def run_concrete(case: dict) -> dict:
         try:
             rc = asyncio.run(asyncio.wait_for(cmd.entry_point(), 30))
             obs["exit"] = f"ret:{rc}"
+        except _CaseHang:
+            raise
         except BaseException as e:  # noqa
             obs["exit"] = "raise:" + type(e).__name__
         con = sqlite3.connect(root / "g.sqlite")
@@ -356,6 +365,8 @@ def run_concrete(case: dict) -> dict:
         metas = list(root.glob("art/*/run-*/META.json"))
         obs["meta"] = json.loads(metas[0].read_text())["exit_code"] if metas else None
         obs["db_closed"] = cmd.db_handler is None or cmd.db_handler.connection is None
+    except _CaseHang:
+        raise
     except BaseException:  # noqa
         obs["harness_error"] = traceback.format_exc()[-1500:]
     finally:
@@ -586,6 +597,8 @@ def run_case(case: dict) -> dict:
             obs["exit"] = "raise:cancelled"
             obs["exit_type"] = type(e).__name__
             obs["exit_in_lock_wait"] = "_aquire_flock" in traceback.format_exc()
+        except _CaseHang:
+            raise
         except BaseException as e:  # noqa
             obs["exit"] = "raise:" + type(e).__name__
             obs["exit_tb"] = traceback.format_exc()[-600:]
@@ -783,6 +796,8 @@ def run_case(case: dict) -> dict:
         obs["n_transports"] = len(Env.transports)
         obs["tp_stopped"] = all(Env.snap_tp)
         obs["dc_stopped"] = all(d.stopped for d in Env.dumpcaps)
+    except _CaseHang:
+        raise
     except BaseException as e:  # noqa
         obs["harness_error"] = traceback.format_exc()[-1500:]
     finally:
@@ -802,7 +817,39 @@ def run_case(case: dict) -> dict:
 def _worker(args):
     repo_src, cases = args
     _init_worker(repo_src)
-    return [run_case(c) for c in cases]
+    limit = float(os.environ.get("C15_CASE_LIMIT", "25"))
+    max_hangs = int(os.environ.get("C15_MAX_HANGS", "3"))   # per worker: further cases are not run (and not judged) after that many
+    hangs = 0
+
+    def on_alarm(signum, frame):
+        raise _CaseHang()
+
+    out = []
+    for c in cases:
+        if hangs >= max_hangs:
+            out.append({"skipped": True, "harness_error": "not run: this worker already cut off several runs that did not end"})
+            continue
+        # a run that does not come back (a changed entry_point() / teardown that waits for something that never happens) must not
+        # hang the whole check: the case is cut and reported as such
+        old = signal.signal(signal.SIGALRM, on_alarm)
+        signal.setitimer(signal.ITIMER_REAL, limit, 5.0)  # repeating: the code under test may swallow the first one
+        try:
+            out.append(run_case(c))
+        except _CaseHang:
+            hangs += 1
+            out.append({"hang": True, "harness_error": f"entry_point() run did not end within {limit:.0f} s of wall-clock time"})
+        finally:
+            signal.setitimer(signal.ITIMER_REAL, 0)
+            signal.signal(signal.SIGALRM, old)
+    return out
+
+
+def _one(conn, repo_src, case):
+    """one case in a process of its own (see Runner._isolated)"""
+    try:
+        conn.send(_worker((repo_src, [case]))[0])
+    finally:
+        conn.close()
 
 
 def run_cases(repo_src: str, cases: list[dict], workers: int) -> list[dict]:
